@@ -34,7 +34,7 @@ class Comment(models.Model):
     body = models.CharField(max_length=64)
     post = models.ForeignKey(Post, on_delete=models.CASCADE, related_name="comments")
     writer = models.ForeignKey(Author, null=True, on_delete=models.CASCADE,
-                               related_name="written")
+                               related_name="comments")
     reviewer = models.ForeignKey(Author, null=True, on_delete=models.CASCADE,
                                  related_name="reviewed")
 
